@@ -104,6 +104,7 @@ class Program:
         self.classes_by_mod: Dict[Tuple[str, str], ClassInfo] = {}
         self.functions: Dict[str, FuncInfo] = {}  # module:qual -> info
         self._mro_cache: Dict[int, List[ClassInfo]] = {}
+        self.class_aliases: Dict[Tuple[str, str], ClassInfo] = {}
         self._subs: Dict[str, List[ClassInfo]] = {}
         pkgdir = os.path.join(repo, PKG)
         if not os.path.isdir(pkgdir):
@@ -165,8 +166,19 @@ class Program:
                             mod.imports[al.name.split(".")[0]] = (al.name.split(".")[0], None)
             for node in mod.tree.body:
                 self._index_stmt(mod, node)
+        # module-level class aliases:  CompuInverseValue = CompuConst
+        for mod in self.modules.values():
+            for st in mod.tree.body:
+                if isinstance(st, ast.Assign) and len(st.targets) == 1 and isinstance(
+                        st.targets[0], ast.Name) and isinstance(st.value, ast.Name):
+                    tgt = self.resolve_class_name(mod, st.value.id)
+                    if tgt is not None and (mod.name, st.targets[0].id) not in self.classes_by_mod:
+                        self.class_aliases[(mod.name, st.targets[0].id)] = tgt
+        for (m, n), tgt in self.class_aliases.items():
+            self.classes_by_mod.setdefault((m, n), tgt)
+            self.classes.setdefault(n, tgt)
         # resolve bases
-        for ci in list(self.classes_by_mod.values()):
+        for ci in list({id(c): c for c in self.classes_by_mod.values()}.values()):
             for bn in ci.base_names:
                 b = self.resolve_class_name(ci.module, bn)
                 if b is not None:
@@ -303,7 +315,11 @@ class Program:
     def subclasses(self, base: Union[str, ClassInfo], strict: bool = False) -> List[ClassInfo]:
         bn = base if isinstance(base, str) else base.name
         out = []
+        seen = set()
         for ci in self.classes_by_mod.values():
+            if id(ci) in seen:
+                continue
+            seen.add(id(ci))
             if self.is_subclass(ci, bn) and not (strict and ci.name == bn):
                 out.append(ci)
         return sorted(out, key=lambda c: (c.module.name, c.name))
